@@ -6,6 +6,9 @@ import DimodProofs.C02View
 import DimodProofs.C02Ising
 import DimodProofs.C02SampleSet
 import DimodProofs.C02Spin
+import DimodProofs.C02Init
+import DimodProofs.C02ViewBridge
+import Properties.C04
 
 /-! # C02 — changing between spin and binary representation never changes any energy
 
@@ -49,7 +52,7 @@ theorem changeVartype_energy_at_converted_sample (m : Bqm Rat) (hm : m.WF) (hvt 
   congr 1; funext u; ring
 
 /-- `changeVartype_roundtrip`: there and back restores offset, every linear and every quadratic coefficient (exactly, over ℚ) -/
-theorem changeVartype_roundtrip (m : Bqm Rat) (hm : m.WF) (other : VT) (hne : other ≠ m.vt) :
+theorem changeVartype_roundtrip (m : Bqm Rat) (hm : m.WF) (other : En.VT) (hne : other ≠ m.vt) :
     let m'' := (m.changeVartype other).changeVartype m.vt
     m''.vt = m.vt ∧ m''.qb.n = m.qb.n ∧ m''.qb.off = m.qb.off ∧
       (∀ u, u < m.qb.n → m''.qb.L u = m.qb.L u) ∧ (∀ u w, m''.qb.Q u w = m.qb.Q u w) :=
@@ -186,9 +189,32 @@ theorem to_qubo_energy (m : QMB Rat) (hm : m.WF) (hns : ∀ u, m.Q u u = 0) (x :
       = m.energy (fun u => 2 * x u - 1) :=
   QMB.to_qubo_energy m hm hns x hx
 
+/-- `from_ising_energy`: `BQM.from_ising(h, J, offset)` — `_init_components` as coded: the offset, then one pass over `J`
+    (`(u, u)` entries go to the offset for SPIN; `(u, v)` and `(v, u)` both present accumulate on one interaction through
+    `add_quadratic`), then `add_linear` per entry of `h` — has the Ising energy at every spin assignment.  `evalL` reads
+    the stored adjacency (each interaction is stored in both rows; `half` is `1/2`). -/
+theorem from_ising_energy {R : Type} [CommRing R] (half : R) (hh : two * half = 1) (h : ODict Label R) (J : PairMap R)
+    (offset : R) (s : Label → R) (hs : ∀ v, s v * s v = 1) :
+    LBqm.evalL half (LBqm.fromIsing h J offset) s = offset + pairSum s J + labelSum s h :=
+  fromIsing_energy half hh h J offset s hs
+
+/-- `from_qubo_energy`: `BQM.from_qubo(Q, offset)` — diagonal entries `Q[(u, u)]` become linear biases (BINARY), the
+    others interactions (both orders accumulate) — has the QUBO energy `offset + Σ Q[(u,v)]·x_u·x_v` at every binary
+    assignment -/
+theorem from_qubo_energy {R : Type} [CommRing R] (half : R) (hh : two * half = 1) (Q : PairMap R) (offset : R)
+    (x : Label → R) (hx : ∀ v, x v * x v = x v) :
+    LBqm.evalL half (LBqm.fromQubo Q offset) x = offset + pairSum x Q :=
+  fromQubo_energy half hh Q offset x hx
+
+/-- the shared constructor body for any vartype (used by `BQM(linear, quadratic, offset, vartype)` with mappings) -/
+theorem init_components_energy {R : Type} [CommRing R] (half : R) (hh : two * half = 1) (vt : En.VT) (linear : ODict Label R)
+    (quadratic : PairMap R) (offset : R) (x : Label → R) (hx : LBqm.InDomain vt x) :
+    LBqm.evalL half (LBqm.initComponents vt linear quadratic offset) x = offset + pairSum x quadratic + labelSum x linear :=
+  LBqm.initComponents_energy half hh vt linear quadratic offset x hx
+
 /-- `sampleset_changeVartype_rows`: `SampleSet.change_vartype(vartype, energy_offset)`: requested vartype, every value converted
     (`2x − 1` / `(s + 1)/2`, identity for an equal vartype), every energy raised by exactly `energy_offset` -/
-theorem sampleset_changeVartype_rows {R : Type} [Field R] [DecidableEq R] (s : SSet R) (target : VT) (off : R) :
+theorem sampleset_changeVartype_rows {R : Type} [Field R] [DecidableEq R] (s : SSet R) (target : En.VT) (off : R) :
     (s.changeVartype target off).vt = target ∧
     (s.changeVartype target off).energy = s.energy.map (· + off) ∧
     (s.changeVartype target off).rows
@@ -201,13 +227,13 @@ theorem sampleset_changeVartype_rows {R : Type} [Field R] [DecidableEq R] (s : S
 /-- a sample set that is still pending when `change_vartype` is called: the deferred result is the direct call on the resolved
     set with the *same* arguments (vartype and energy offset). (Definitional on the model; the run compares the real
     future-backed path with it.) -/
-theorem sampleset_changeVartype_deferred {R : Type} [Field R] [DecidableEq R] (pending : Unit → SSet R) (target : VT) (off : R) :
+theorem sampleset_changeVartype_deferred {R : Type} [Field R] [DecidableEq R] (pending : Unit → SSet R) (target : En.VT) (off : R) :
     SSet.changeVartypeDeferred pending target off () = (pending ()).changeVartype target off :=
   SSet.changeVartypeDeferred_spec pending target off
 
 /-- there and back with opposite offsets restores samples and energies -/
 theorem sampleset_changeVartype_roundtrip {R : Type} [Field R] [DecidableEq R] (s : SSet R) (h2 : (two : R) ≠ 0)
-    (other : VT) (hne : other ≠ s.vt) (off : R) :
+    (other : En.VT) (hne : other ≠ s.vt) (off : R) :
     ((s.changeVartype other off).changeVartype s.vt (-off)).rows = s.rows ∧
     ((s.changeVartype other off).changeVartype s.vt (-off)).energy = s.energy :=
   SSet.changeVartype_roundtrip s h2 other hne off
@@ -224,9 +250,12 @@ theorem sampleset_bqm_consistent (m : Bqm Rat) (hm : m.WF) :
 The factors are `Generated.Vartype.viewBinaryOverSpin` / `viewSpinOverBinary` (extracted from `vartypeview.py`).
 Reads are compared with the coefficients of the converted model (`substitute_variables`, shown above to be the
 substitution).  Writes: the increments a view write applies to the data are the edit monomial rewritten in the
-data's variables; together with the data back-end's own laws (`add_linear` adds to one linear bias, … — C04)
-this is "convert, edit, convert back".  These hold for any data state, in particular when the base model
-changed its vartype after the view object was created. -/
+data's variables (`view_write_add_linear`, `view_write_add_quadratic`: the arithmetic of the generated factors).  The
+statement about the *stored model* — the data after a write through a view is: convert, edit, convert back — is
+`view_write_eq_convert_edit_back` at the end of this file, a corollary of builder-bqm's `C04.view_sees_edit` and of
+`C02Bridge.viewP_eq_changeVartype` / `changeVartype_roundtrip` (no assumption about the data back-end is left).
+These hold for any data state, in particular when the base model changed its vartype after the view object was
+created. -/
 
 /-- `view_reads_eq_converted`, `get_linear` -/
 theorem view_reads_eq_converted_linear (m : QMB Rat) (hm : m.WF) (u : Nat) (hu : u < m.n) :
@@ -259,7 +288,7 @@ theorem view_energies_sample_map (x s : Rat) :
 /-- a view object whose vartype coincides with the data's (a `.spin`/`.binary` view kept while the base model changed vartype in
     place, or re-typed in place itself) passes samples through unchanged — `energies` is then the data's own `energies`;
     otherwise the generated affine map is applied. Decided per call from the data's *current* vartype. -/
-theorem view_energies_passthrough (T : ViewTables Rat) (view : VT) (d : LBqm Rat) (x : Rat) :
+theorem view_energies_passthrough (T : ViewTables Rat) (view : En.VT) (d : LBqm Rat) (x : Rat) :
     (view = d.vt → View.sampleMap T view d x = x) ∧
     (view ≠ d.vt → View.sampleMap T view d x = (View.tbl T view).sampleMul * x + (View.tbl T view).sampleAdd) := by
   constructor <;> intro h <;> simp [View.sampleMap, h]
@@ -282,7 +311,7 @@ theorem view_write_add_quadratic (b su sv xu xv : Rat) :
 
 /-- the view's `add_linear` *is* the data's `add_linear` with the table's factor plus the offset increment; with equal
     vartypes (a view object kept across an in-place `change_vartype`) it is the data's own method -/
-theorem view_add_linear_unfolds (T : ViewTables Rat) (view : VT) (d : LBqm Rat) (v : Label) (b : Rat) :
+theorem view_add_linear_unfolds (T : ViewTables Rat) (view : En.VT) (d : LBqm Rat) (v : Label) (b : Rat) :
     (view ≠ d.vt → View.addLinear T view d v b
       = { d.addLinear v ((View.tbl T view).addLinLin * b) with
           off := (d.addLinear v ((View.tbl T view).addLinLin * b)).off + (View.tbl T view).addLinOff * b }) ∧
@@ -291,7 +320,7 @@ theorem view_add_linear_unfolds (T : ViewTables Rat) (view : VT) (d : LBqm Rat) 
 
 /-- the offset setter (repaired, D7): whatever the vartype combination, reading the offset back through the same
     view returns the value that was set -/
-theorem view_offset_set_get (T : ViewTables Rat) (view : VT) (d d' : LBqm Rat) (b : Rat)
+theorem view_offset_set_get (T : ViewTables Rat) (view : En.VT) (d d' : LBqm Rat) (b : Rat)
     (h : View.setOffset T view d b = .ok d') : View.offset T view d' = b :=
   View.setOffset_readback T view d d' b h
 
@@ -307,5 +336,69 @@ example :
         (fun u => if u = 0 then 1 else 0) = 1/2 := by decide +kernel
 
 example : polySpec (fun _ => (1 : Rat)) (polyToBinary [([0, 1, 2], (1 : Rat))]) = 1 := by decide +kernel
+
+/-- `from_ising` with `(a,b)`, `(b,a)` and a diagonal entry: `J = {(a,b): 2, (b,a): 3, (a,a): 5}`, `h = {a: 1}`, offset `1/2` -/
+example :
+    (let m := LBqm.fromIsing [(Label.str "a", (1 : Rat))]
+      [((Label.str "a", Label.str "b"), 2), ((Label.str "b", Label.str "a"), 3), ((Label.str "a", Label.str "a"), 5)] (1/2)
+     (m.off, LBqm.evalL (1/2) m (fun _ => (1 : Rat)))) = (11/2, 23/2) := by decide +kernel
+
+end C02
+
+/-! ## writes through a view on the stored model (builder-bqm's `Bqm` of `DimodModel/Bqm.lean`; `En` is *not* open here) -/
+
+namespace C02
+
+open Bqm
+
+/-- **what a `VartypeView` of vartype `tv` shows (`viewLin`, `viewFactor`, `viewOff`: the reader code of `vartypeview.py`)
+    is the model converted by the C++ `change_vartype(tv)`** — fresh or stale view, either vartype.  The only non-trivial
+    point: the view's offset sums each interaction once (lower triangle), `substitute_variables` every directed entry with
+    `c²/2` (`C02Bridge.sum_sumNb`). -/
+theorem view_shows_converted (m : Bqm) (i : m.Inv) (tv : VT) :
+    (absL m).viewP tv = absL (m.step .direct (.changeVartype tv)).1 :=
+  C02Bridge.view_shows_converted i tv
+
+/-- `change_vartype` there and back is the identity on the stored polynomial (labels, order, every bias, offset) -/
+theorem stored_changeVartype_roundtrip (m : Bqm) (i : m.Inv) (tv : VT) :
+    ((absL m).changeVartype tv).changeVartype m.vt = absL m :=
+  C02Bridge.changeVartype_roundtrip (LWF.absL i) tv
+
+/-- **`view_write_eq_convert_edit_back`** — the stored model after the offset setter, `add_linear`, `set_linear`,
+    `add_quadratic`, `set_quadratic` issued through a view of vartype `tv` is: the model converted to `tv` by
+    `change_vartype`, edited by the plain single-term edit, converted back to the data's vartype.  Corollary of
+    `C04.view_sees_edit` (the view sees the edit), `view_shows_converted` and the round trip; the data keeps its own
+    vartype (`C02Bridge.v*_vt`).
+    Not restated here: `update`, `flip_variable`, the bulk adders and the composites through a view — C04 has `view_sees_*`
+    for each, and `C02Bridge.write_is_convert_edit_back` (generic in the edit) turns any of them into this form once the
+    vartype of the data afterwards is shown unchanged.  The equality of the generated factor tables (`Generated.Vartype`)
+    with the literals of `DimodModel/Bqm.lean`'s view code is checked differentially (both drivers against the build), not
+    stated in Lean. -/
+theorem view_write_eq_convert_edit_back (m : Bqm) (i : m.Inv) (tv : VT) :
+    (∀ b, absL (m.step (.view tv) (.setOffset b)).1
+        = ({ absL (m.step .direct (.changeVartype tv)).1 with off := b } : LPoly).changeVartype m.vt) ∧
+    (∀ v b, absL (m.step (.view tv) (.addLinear (some v) b)).1
+        = ((absL (m.step .direct (.changeVartype tv)).1).addLinear v b).changeVartype m.vt) ∧
+    (∀ v b, absL (m.step (.view tv) (.setLinear (some v) b)).1
+        = ((absL (m.step .direct (.changeVartype tv)).1).setLinear v b).changeVartype m.vt) ∧
+    (∀ u v b, u ≠ v → absL (m.step (.view tv) (.addQuadratic (some u) (some v) b)).1
+        = ((absL (m.step .direct (.changeVartype tv)).1).quadOp u v b false).changeVartype m.vt) ∧
+    (∀ u v b, u ≠ v → absL (m.step (.view tv) (.setQuadratic (some u) (some v) b)).1
+        = ((absL (m.step .direct (.changeVartype tv)).1).quadOp u v b true).changeVartype m.vt) := by
+  refine ⟨fun b => ?_, fun v b => ?_, fun v b => ?_, fun u v b hne => ?_, fun u v b hne => ?_⟩
+  · exact C02Bridge.write_is_convert_edit_back i (Bqm.view_setOffset i tv b).2 (C02Bridge.vSetOffset_vt m tv b) tv
+      (fun q => { q with off := b }) (Bqm.view_setOffset i tv b).1
+  · exact C02Bridge.write_is_convert_edit_back i (Bqm.view_addLinear i tv v b).2 (C02Bridge.vAddLinear_vt m tv v b) tv
+      (fun q => q.addLinear v b) (Bqm.view_addLinear i tv v b).1
+  · exact C02Bridge.write_is_convert_edit_back i (Bqm.view_setLinear i tv v b).2 (C02Bridge.vSetLinear_vt m tv v b) tv
+      (fun q => q.setLinear v b) (Bqm.view_setLinear i tv v b).1
+  · have r := Bqm.view_addQuadratic i tv u v b hne
+    have := C02Bridge.write_is_convert_edit_back i r.2 (C02Bridge.vAddQuadratic_vt m tv u v b) tv
+      (fun q => q.quadOp u v b false) r.1
+    simp only [Bqm.step, Via.tv, hne, if_false, Bqm.lift]
+    exact this
+  · have r := Bqm.view_setQuadratic i tv u v b hne
+    exact C02Bridge.write_is_convert_edit_back i r.2.2 (C02Bridge.vSetQuadratic_vt m tv u v b) tv
+      (fun q => q.quadOp u v b true) r.1
 
 end C02
